@@ -39,6 +39,9 @@ var (
 	// packfile never produces more data than the declared size; exceeding it
 	// indicates a structurally invalid entry.
 	ErrInflatedSizeMismatch = errors.New("packfile: inflated object exceeds declared size")
+	// ErrInflatedSizeShort is returned when a packfile object inflates to
+	// fewer bytes than the size declared in its object header.
+	ErrInflatedSizeShort = errors.New("packfile: inflated object is shorter than declared size")
 )
 
 // boundedWriter passes writes through to w up to limit bytes total, then
@@ -339,7 +342,14 @@ func (r *Scanner) inflateContent(contentOffset int64, writer io.Writer, declared
 	defer gogitsync.PutZlibReader(zr)
 
 	_, err = ioutil.CopyBufferPool(bounded, zr)
-	return err
+	if err != nil {
+		return err
+	}
+	if bounded.n != declaredSize {
+		return fmt.Errorf("%w: object inflates to %d bytes, header declares %d",
+			ErrInflatedSizeShort, bounded.n, declaredSize)
+	}
+	return nil
 }
 
 // scan goes through the next stateFn.
@@ -530,11 +540,20 @@ func objectEntry(r *Scanner) (stateFn, error) {
 	// value, so any overrun signals a malformed entry. For delta entries
 	// the declared size is the size of the delta instruction stream, not
 	// the resolved object.
-	mw = &boundedWriter{w: mw, limit: oh.Size}
+	bounded := &boundedWriter{w: mw, limit: oh.Size}
 
-	_, err = ioutil.CopyBufferPool(mw, zr)
+	_, err = ioutil.CopyBufferPool(bounded, zr)
 	if err != nil {
 		return nil, err
+	}
+
+	// The inflated stream must also not end early: canonical Git rejects an
+	// entry whose inflated length differs from the declared size in either
+	// direction (index-pack: "inflate returned"), and a short object would
+	// otherwise be hashed and stored under a header it does not have.
+	if bounded.n != oh.Size {
+		return nil, fmt.Errorf("%w: %w: object at offset %d inflates to %d bytes, header declares %d",
+			ErrMalformedPackfile, ErrInflatedSizeShort, offset, bounded.n, oh.Size)
 	}
 
 	if err := r.Flush(); err != nil {
